@@ -43,9 +43,11 @@ pub mod tape {
 }
 
 #[cfg(kani)]
-#[inline(always)]
+#[inline(never)]
 pub fn u8_() -> u8 {
-    kani::any()
+    // the local's name is what the driver looks for in a CBMC trace (counterexample tape)
+    let draw_u8: u8 = kani::any();
+    draw_u8
 }
 #[cfg(not(kani))]
 pub fn u8_() -> u8 {
@@ -53,9 +55,11 @@ pub fn u8_() -> u8 {
 }
 
 #[cfg(kani)]
-#[inline(always)]
+#[inline(never)]
 pub fn bool_() -> bool {
-    kani::any()
+    // the local's name is what the driver looks for in a CBMC trace (counterexample tape)
+    let draw_bool: bool = kani::any();
+    draw_bool
 }
 #[cfg(not(kani))]
 pub fn bool_() -> bool {
@@ -63,9 +67,11 @@ pub fn bool_() -> bool {
 }
 
 #[cfg(kani)]
-#[inline(always)]
+#[inline(never)]
 pub fn u16_() -> u16 {
-    kani::any()
+    // the local's name is what the driver looks for in a CBMC trace (counterexample tape)
+    let draw_u16: u16 = kani::any();
+    draw_u16
 }
 #[cfg(not(kani))]
 pub fn u16_() -> u16 {
@@ -74,9 +80,11 @@ pub fn u16_() -> u16 {
 }
 
 #[cfg(kani)]
-#[inline(always)]
+#[inline(never)]
 pub fn u32_() -> u32 {
-    kani::any()
+    // the local's name is what the driver looks for in a CBMC trace (counterexample tape)
+    let draw_u32: u32 = kani::any();
+    draw_u32
 }
 #[cfg(not(kani))]
 pub fn u32_() -> u32 {
@@ -85,9 +93,11 @@ pub fn u32_() -> u32 {
 }
 
 #[cfg(kani)]
-#[inline(always)]
+#[inline(never)]
 pub fn usize_() -> usize {
-    kani::any()
+    // the local's name is what the driver looks for in a CBMC trace (counterexample tape)
+    let draw_usize: usize = kani::any();
+    draw_usize
 }
 #[cfg(not(kani))]
 pub fn usize_() -> usize {
@@ -151,9 +161,10 @@ thread_local! {
 }
 
 #[cfg(kani)]
-#[inline(always)]
+#[inline(never)]
 pub fn bytes<const L: usize>() -> [u8; L] {
-    kani::any()
+    let draw_bytes: [u8; L] = kani::any();
+    draw_bytes
 }
 #[cfg(not(kani))]
 pub fn bytes<const L: usize>() -> [u8; L] {
